@@ -204,6 +204,11 @@ static int parse_ifdef_expression(
   int n1 = 0;
   int n;
 
+  // A call made for an opening parenthesis (or the outermost call) starts
+  // in state 0; a call made for a higher precedence level starts in state 1
+  // and must leave the closing parenthesis to the call that owns it.
+  const int entered_state = state;
+
   oper.operation = OPER_NONE;
   oper.precedence = precedence;
   n = *num;
@@ -220,13 +225,11 @@ printf("debug> #if: %d) %s   n=%d paren_count=%d precedence=%d state=%d\n", toke
     {
       tokens_push(asm_context, token, token_type);
 
-#if 0
-      if (paren_count != 0)
+      if (paren_count != 0 && entered_state == 0)
       {
         print_error(asm_context, "Unbalanced parentheses.");
         return -1;
       }
-#endif
 
       if (state != 1)
       {
@@ -358,6 +361,11 @@ printf("debug> #if: parse_defined()=%d\n", n);
       {
         print_error_unexp(asm_context, token);
         return -1;
+      }
+
+      if (entered_state == 1)
+      {
+        tokens_push(asm_context, token, token_type);
       }
 
       if (oper.operation != OPER_NONE)
